@@ -444,6 +444,23 @@ unsafe impl Send for HalfConnection {}
 // Internal RefCell objects cannot be accessed through a &HalfConnection
 unsafe impl Sync for HalfConnection {}
 
+#[cfg(feature = "verif")]
+impl HalfConnection {
+    pub fn verif_send_rate(&self) -> f64 { self.send_rate_comp.send_rate() }
+    pub fn verif_rto_ms(&self) -> Option<u64> { self.send_rate_comp.rto_ms() }
+    pub fn verif_rtt_ms(&self) -> Option<u64> { self.send_rate_comp.rtt_ms() }
+    pub fn verif_flush_alloc(&self) -> isize { self.flush_alloc }
+    pub fn verif_has_frame(&self, frame_id: u32) -> bool { self.frame_queue.verif_has_frame(frame_id) }
+    pub fn verif_frame_log_len(&self) -> usize { self.frame_queue.verif_log_len() }
+    pub fn verif_tx_frame_ids(&self) -> (u32, u32) { (self.frame_queue.base_id(), self.frame_queue.next_id()) }
+    pub fn verif_tx_packet_ids(&self) -> (u32, u32) { (self.packet_sender.base_id(), self.packet_sender.next_id()) }
+    pub fn verif_rx_frame_base_id(&self) -> u32 { self.frame_ack_queue.base_id() }
+    pub fn verif_rx_packet_base_id(&self) -> u32 { self.packet_receiver.base_id() }
+    pub fn verif_rx_alloc(&self) -> usize { self.packet_receiver.verif_alloc() }
+    pub fn verif_tx_alloc(&self) -> usize { self.packet_sender.verif_alloc() }
+    pub fn verif_ack_queue_len(&self) -> usize { self.frame_ack_queue.verif_len() }
+    pub fn verif_queue_lens(&self) -> (usize, usize, usize) { (self.packet_sender.pending_count(), self.pending_queue.len(), self.resend_queue.len()) }
+}
 
 #[cfg(test)]
 mod tests {
